@@ -469,7 +469,8 @@ def _pinned_whole_store(col):
 def _pinned_regressions(col):
     """Witnesses of the repaired refusal sites: each call must raise and leave the document untouched."""
     P = common.parser()
-    text = '2000-01-01 open Assets:Foo USD, EUR\n2000-01-02 *\n    kk: 1\n    Assets:Foo  1 USD {{2 EUR}}\n    Assets:Bar\n'
+    text = ('2000-01-01 open Assets:Foo USD, EUR\n2000-01-02 *\n    kk: 1\n    Assets:Foo  1 USD {{2 EUR}}\n    Assets:Bar\n'
+            '2000-01-03 custom "x" 1 Assets:A Assets:B TRUE\n')
     donor = P.parse('2000-01-03 open Assets:Baz CAD\n2000-01-04 note Assets:Baz "n"\n', models.File)
     att_cur = donor.directives[0].raw_currencies[0]
     cases = [
@@ -481,6 +482,7 @@ def _pinned_regressions(col):
         ('in-place arithmetic with an attached operand', lambda f: operator.imul(f.directives[1].postings[0].raw_number, f.directives[1].postings[0].cost.raw_number_total)),
         ('raw_payee = attached string', lambda f: setattr(f.directives[1], 'raw_payee', donor.directives[1].raw_comment)),
         ('cost.raw_number_per = attached number', lambda f: setattr(f.directives[1].postings[0].cost, 'raw_number_per', f.directives[1].postings[0].raw_number)),
+        ('reverse() of custom values holding attached nodes', lambda f: f.directives[2].values.reverse()),
         ('splice with a token of another store', lambda f: f.token_store.insert_after(f.token_store.get_first(), [donor.token_store.get_first()])),
     ]
     for name, call in cases:
